@@ -8,7 +8,7 @@ from common import VERIF
 import panoptica.panoptica_aggregator as PA
 from props.c16 import mk_evaluator, subject_arrays, workdir, reference_row
 
-RULE = ("several aggregator objects in one interpreter sharing one evaluator object (re-created on the same file, a neighbour with other options); histories of 1-3 aggregator sessions on one output file under the controlled scheduler: every session = "
+RULE = ("resume in a child interpreter with a non-UTF-8 locale and non-ASCII subject names; several aggregator objects in one interpreter sharing one evaluator object (re-created on the same file, a neighbour with other options); histories of 1-3 aggregator sessions on one output file under the controlled scheduler: every session = "
         "constructor (each file/lock operation a step) followed by 1-3 evaluate() threads under a random schedule, cut by "
         "a crash (kill: threads and locks vanish, files stay) at a random point incl. inside the constructor; the last "
         "session resubmits all subjects and runs to completion; initial file states {absent, empty, header only, "
@@ -264,6 +264,23 @@ def shared_evaluator_sessions(ctx, lt1, lt2, src):
         shutil.rmtree(d, ignore_errors=True)
 
 
+def locale_resume(ctx, src):
+    """resume in a process whose locale encoding is not UTF-8, with non-ASCII subject names already in the file"""
+    from props.c16 import locale_sessions
+    inp, out, want = locale_sessions(ctx, "C17", src)
+    if out is None:
+        return
+    got = sorted(r[0] for r in out["rows"][1:])
+    if any(e.startswith("constructor") for e in out["errors"]):
+        ctx.violation(f"C17 violated under a non-UTF-8 locale: an aggregator could not be created again on its own output file ({sorted(set(out['errors']))})",
+                      inp, impl=out["errors"], key={"kind": "locale"})
+    elif out["errors"] or got != sorted(want):
+        ctx.violation(f"C17 violated under a non-UTF-8 locale: after resubmitting all subjects the file holds rows for {got} (expected {sorted(want)}); "
+                      f"errors {sorted(set(out['errors']))}", inp, impl=got, key={"kind": "locale"})
+    elif len(out["rows"]) and out["rows"][0][0] != "subject_name":
+        ctx.violation("C17 violated under a non-UTF-8 locale: header missing", inp, key={"kind": "locale"})
+
+
 def rand_history(ctx, tag, i):
     rng = ctx.rng
     init = rng.choice(["absent", "empty", "header", "rows", "rows+buffer"])
@@ -306,6 +323,7 @@ def run(ctx):
             pairs.append((a + ".tsv", b + ".tsv"))
     for n1, n2 in pairs:
         siblings(ctx, n1, n2, f"sib.{n1}.{n2}")
+    locale_resume(ctx, "locale")
     for lt1 in (False, True):
         for lt2 in (False, True):
             shared_evaluator_sessions(ctx, lt1, lt2, f"shared.{lt1}.{lt2}")
@@ -317,6 +335,9 @@ def search(ctx):
 
 
 def replay(ctx, rec):
+    if str(rec["input"].get("mode", "")).startswith("child interpreter with LC_ALL=C"):
+        locale_resume(ctx, "replay")
+        return
     if rec["input"].get("mode") == "shared-evaluator":
         shared_evaluator_sessions(ctx, rec["input"]["log_times"][0], rec["input"]["log_times"][1], "replay")
         return
